@@ -1,5 +1,5 @@
 (* Extract.v -- extraction of the executable models to OCaml (ExtrOcamlBasic only). *)
-Require Import TrackModel SigCore GenTypes AdaptorModel TypeModel gen.Tables.
+Require Import TrackModel SigCore GenTypes AdaptorModel TypeModel NestModel NestSpec gen.Tables.
 Require Import ExtrOcamlBasic.
 Extraction Language OCaml.
 Set Extraction KeepSingleton.
@@ -9,4 +9,5 @@ Extraction "../ocaml/extracted/model.ml"
   AdaptorModel.refs AdaptorModel.visited AdaptorModel.call AdaptorModel.call_doc AdaptorModel.wt AdaptorModel.wf_values
   AdaptorModel.table_ok AdaptorModel.slices_ok AdaptorModel.modes_ok AdaptorModel.fields_ok
   TypeModel.binds TypeModel.explicit_ok TypeModel.result_ok TypeModel.converts TypeModel.direct_ok TypeModel.lib_accepts TypeModel.all_ptypes TypeModel.all_argexprs TypeModel.all_bases
-  Tables.gen_visit_table Tables.gen_hop_modes Tables.gen_slices Tables.gen_members.
+  Tables.gen_visit_table Tables.gen_hop_modes Tables.gen_slices Tables.gen_members Tables.gen_memfun_pass Tables.gen_casts TypeModel.casts_ok
+  NestModel.nstep NestModel.nrun NestModel.observe NestModel.nst0 NestSpec.user_ok.
